@@ -194,16 +194,24 @@ class Rotate(Domain):
         # domain_bounds are in shape [x_min, x_max, y_min, y_max, ...]
         # both min and max have to be shifted by the same value
         domain_bounds = domain_bounds - translation_values
-        rotated_min = torch.matmul(rotation_matrix, domain_bounds[:, ::2].unsqueeze(-1))
-        rotated_min = rotated_min.squeeze(-1)
-        rotated_max = torch.matmul(
-            rotation_matrix, domain_bounds[:, 1::2].unsqueeze(-1)
-        )
-        rotated_max = rotated_max.squeeze(-1)
+        # rotate all corners of the box (not only the two extreme ones)
+        mins, maxs = domain_bounds[:, ::2], domain_bounds[:, 1::2]
+        corners = []
+        for choice in range(2**self.space.dim):
+            use_max = torch.tensor(
+                [(choice >> i) & 1 for i in range(self.space.dim)],
+                dtype=torch.bool,
+                device=mins.device,
+            )
+            corners.append(torch.where(use_max, maxs, mins))
+        corners = torch.stack(corners, dim=1)
+        rotated = torch.matmul(
+            rotation_matrix.unsqueeze(1), corners.unsqueeze(-1)
+        ).squeeze(-1)
         domain_bounds = torch.zeros(
-            (len(rotated_min), 2 * self.space.dim), device=device
+            (len(rotated), 2 * self.space.dim), device=device
         )
-        domain_bounds[:, ::2] = torch.min(rotated_min, rotated_max)
-        domain_bounds[:, 1::2] = torch.max(rotated_min, rotated_max)
+        domain_bounds[:, ::2] = torch.min(rotated, dim=1)[0]
+        domain_bounds[:, 1::2] = torch.max(rotated, dim=1)[0]
         domain_bounds = domain_bounds + translation_values
         return domain_bounds.squeeze(0)
